@@ -12,7 +12,7 @@ ALL_OPS = ["New", "Append", "SetIndices", "SetMaterial", "SetMaterials", "SetAtt
            "CopyAttr", "Translate", "Scale", "Rotate", "ApplyTRS", "TranslateAttr", "ScaleAttr",
            "RotateAttr", "CenterAttr", "ToPointCloud", "Unweld", "RemoveUnreferenced", "FlipWinding",
            "Weld", "RemoveNullFaces", "Split", "Filter", "Crop", "Repeat", "Export", "Scan",
-           "Normalize", "FlatNormals", "SmoothNormals", "Laplacian", "Misc"]
+           "Normalize", "FlatNormals", "SmoothNormals", "Laplacian", "Misc", "Prim", "SetAttrWindow"]
 
 Q = 1024
 
@@ -110,7 +110,7 @@ def collect_histories(ctx, vh):
     if tier == "thorough":
         # one level deeper over the operations that share / extend / re-index storage
         sharing = ["New", "Append", "SetIndices", "SetMaterials", "SetAttr", "ModifyAttr", "CopyAttr", "Translate", "Unweld",
-                   "RemoveUnreferenced", "Weld", "Export", "Split"]
+                   "RemoveUnreferenced", "Weld", "Export", "Split", "Prim", "SetAttrWindow"]
         gen_cfg(os.path.join(d2, "Gen4.cfg"), 3, 4, sharing)
         r = core.run_tlc(ctx.scratch("gen4"), "MeshPool", "Gen4.cfg", files=[(os.path.join(d2, "Gen4.cfg"), "Gen4.cfg")],
                          workers=core.NCPU, timeout=3000, heap="10g")
@@ -163,6 +163,25 @@ def collect_histories(ctx, vh):
             risky.append(instantiate_shape(sh, k, "triangle" if (i + k) % 4 else "point", (i + k) % 2 == 0))
     notes["risky_histories"] = len(risky)
     hists += risky
+
+    # (3b) overlapping windows of one caller-owned array: a short and a long window on the same backing array are
+    #      attributes of two live meshes; padding/extending the short one must not write into the long one
+    win = []
+    for n, extra in ([(1, 1), (3, 2), (3, 3)] if tier == "quick" else [(1, 1), (2, 3), (3, 2), (3, 3), (5, 8), (8, 5), (13, 21)]):
+        a = base_mesh(n, 1, "point")
+        b = base_mesh(n + extra, 2, "point")
+        for ar, aid in ((1, 13), (3, 15), (2, 14), (4, 8)):
+            data = [[(i + 1) * Q] * ar for i in range(n + extra)]
+            win.append({"nslots": 5, "tag": "window", "steps": [
+                {"op": "New", "dst": 1, "src": [], "args": {"z": 0, "mesh": a}},
+                {"op": "New", "dst": 2, "src": [], "args": {"z": 0, "mesh": b}},
+                {"op": "SetAttrWindow", "dst": 3, "src": [1], "args": {"z": 0, "ar": ar, "id": aid, "data": data, "n": n}},
+                {"op": "SetAttrWindow", "dst": 4, "src": [2], "args": {"z": 0, "ar": ar, "id": aid, "data": data, "n": n + extra}},
+                {"op": "Append", "dst": 5, "src": [3, 1], "args": {"z": 0}},
+                {"op": "Append", "dst": 5, "src": [3, 3], "args": {"z": 0}},
+                {"op": "Scan", "dst": 0, "src": [4], "args": {"z": 0}}]})
+    notes["window_histories"] = len(win)
+    hists += win
 
     # (4) seeded large histories
     d = ctx.scratch("rnd")
